@@ -30,19 +30,36 @@ type Invocation struct {
 	// which does not exist yet: a successful run that writes through the link
 	// creates it, and that IS its output.
 	LinkTarget string `json:"link_target,omitempty"`
+	// Spell (0 = plain) chooses among the spellings the standard flag package
+	// gives every boolean flag - -x, --x, -x=true, -x=1 - spells a flag that is
+	// off as -x=false / -x=0 now and then, shuffles the flags, and may put the
+	// "--" terminator in front of the input: all of them the same command line.
+	Spell int `json:"spell,omitempty"`
 }
 
 func (iv Invocation) Args() []string {
 	var fl [][]string
-	if iv.Dry {
-		fl = append(fl, []string{"-dry"})
+	sp := uint32(iv.Spell)
+	next := func(n uint32) uint32 { // a tiny LCG over the spelling value: no other source
+		sp = sp*1664525 + 1013904223
+		return (sp >> 16) % n
 	}
-	if iv.Print {
-		fl = append(fl, []string{"-print"})
+	boolFlag := func(on bool, name string) {
+		if iv.Spell == 0 {
+			if on {
+				fl = append(fl, []string{"-" + name})
+			}
+			return
+		}
+		if on {
+			fl = append(fl, []string{[]string{"-" + name, "--" + name, "-" + name + "=true", "--" + name + "=1", "-" + name + "=T"}[next(5)]})
+		} else if next(4) == 0 {
+			fl = append(fl, []string{[]string{"-" + name + "=false", "--" + name + "=0", "-" + name + "=F"}[next(3)]})
+		}
 	}
-	if iv.Log {
-		fl = append(fl, []string{"-log"})
-	}
+	boolFlag(iv.Dry, "dry")
+	boolFlag(iv.Print, "print")
+	boolFlag(iv.Log, "log")
 	if iv.OutArg != "" {
 		switch (iv.FlagOrder / 2) % 3 {
 		case 1:
@@ -58,11 +75,20 @@ func (iv Invocation) Args() []string {
 			fl[i], fl[j] = fl[j], fl[i]
 		}
 	}
+	if iv.Spell != 0 {
+		for i := len(fl) - 1; i > 0; i-- {
+			j := int(next(uint32(i + 1)))
+			fl[i], fl[j] = fl[j], fl[i]
+		}
+	}
 	var args []string
 	for _, f := range fl {
 		args = append(args, f...)
 	}
 	if iv.Input != "" {
+		if iv.Spell != 0 && next(4) == 0 {
+			args = append(args, "--")
+		}
 		args = append(args, iv.Input)
 	}
 	return args
